@@ -790,6 +790,27 @@ func (ex *Exec) linearAppend(fr *Frame, site ssa.Instruction) bool {
 
 var linearChecked = map[ssa.Value]string{}
 
+// linearSource: a value that may be assigned to a linear slice variable: nil, a new slice, the
+// parameter it spills, or an append to itself
+func linearSource(v ssa.Value, isAddr func(ssa.Value) bool) bool {
+	switch x := v.(type) {
+	case *ssa.Const, *ssa.MakeSlice, *ssa.Parameter:
+		return true
+	case *ssa.Slice:
+		// slice literal: a slice of a new array
+		al, ok := x.X.(*ssa.Alloc)
+		return ok && al.Heap
+	case *ssa.Call:
+		b, ok := x.Call.Value.(*ssa.Builtin)
+		if !ok || b.Name() != "append" {
+			return false
+		}
+		ld, ok := x.Call.Args[0].(*ssa.UnOp)
+		return ok && isAddr(ld.X)
+	}
+	return false
+}
+
 // checkLinearAddrs: the variable (its address values) is only used as s = append(s, ...), s[i], len/cap(s), return s
 func checkLinearAddrs(fn *ssa.Function, addrs []ssa.Value) string {
 	if len(addrs) == 0 {
@@ -821,6 +842,8 @@ func checkLinearAddrs(fn *ssa.Function, addrs []ssa.Value) string {
 			case *ssa.Store:
 				if !isAddr(x.Addr) {
 					res = "its address is stored somewhere"
+				} else if !linearSource(x.Val, isAddr) {
+					res = "it is assigned from another slice"
 				}
 			case *ssa.UnOp: // load
 				for _, u := range *x.Referrers() {
